@@ -310,7 +310,8 @@ Proof.
   - destruct (memn (f_gen f) (w_active W)) eqn:MA; [|apply effA_refl]. apply memn_In in MA.
     destruct (memn (f_gen f) (w_delayed W)).
     + destruct (d90_dropped_dm_started cfg); [apply effA_refl|]. exists []. split; [apply eff_same; reflexivity|intros f' []].
-    + exists [f]. split; [apply dm_stop_eff|]. intros f' [<-|[]]. auto.
+    + destruct (d93_fault_pins_function cfg && pinned f); [apply effA_refl|].
+      exists [f]. split; [apply dm_stop_eff|]. intros f' [<-|[]]. auto.
   - pose proof (leg_func_stop_eff cfg W f) as E. destruct (memn (f_gen f) (w_active W)) eqn:MA.
     + apply memn_In in MA. exists [f]. split; [exact E|]. intros f' [<-|[]]. auto.
     + exists []. split; [exact E|intros f' []].
@@ -412,7 +413,7 @@ Proof.
   unfold define.
   set (gen := w_next W).
   set (units := number_units (s_crash s) gen (gen + 1) (if n then new_protos s else legacy_protos s)).
-  set (f := {| f_gen := gen; f_ctx := c; f_new := n; f_units := units; f_svc := s_svc s; f_pos := s_pos s |}).
+  set (f := {| f_gen := gen; f_ctx := c; f_new := n; f_units := units; f_svc := s_svc s; f_pos := s_pos s; f_inline := memn c (w_auto W) |}).
   set (Wf := {| w_led := w_led W; w_funcs := w_funcs W ++ [f]; w_active := w_active W; w_delayed := w_delayed W;
                 w_pending := w_pending W; w_zombie := w_zombie W; w_running := w_running W; w_starting := w_starting W;
                 w_hdl := w_hdl W; w_auto := w_auto W; w_next := gen + 1 + N.of_nat (length units); w_log := w_log W |}).
@@ -483,7 +484,7 @@ Proof.
     apply settle_eff; [exact HI|apply below_refl].
   - destruct (crash_all_inv cfg (crashers_startup W) AO W HI) as [_ [F [Nx [A [_ [_ [_ [_ [_ [LG [RP _]]]]]]]]]]].
     apply FromA; try assumption; [intros x Hx; rewrite <- A; exact Hx|]. exists []. split; [apply eff_same; assumption|intros f []].
-  - pose proof AO as [_ [_ [_ [_ D92]]]]. rewrite D92.
+  - pose proof AO as [_ [_ [_ [_ [D92 _]]]]]. rewrite D92.
     destruct (ctx_start_inv cfg m ord W AO HI) as [_ [[T1 T2] S]]. apply FromA; try assumption. apply ctx_start_eff; assumption.
 Qed.
 
@@ -629,13 +630,13 @@ Proof. intros AO ops0 ops g W HD. apply no_run_after_stop; [exact AO|apply reach
 (* the deviations of today's code, on witnesses                                                    *)
 (* ============================================================================================== *)
 Definition cfg_only16 := {| d16_notify_del_return := true; d90_dropped_dm_started := false; d91_pending_subscribes := false; d21_handler_stays := false;
-  d92_cell_import_not_started := false |}.
+  d92_cell_import_not_started := false; d93_fault_pins_function := false |}.
 Definition cfg_only90 := {| d16_notify_del_return := false; d90_dropped_dm_started := true; d91_pending_subscribes := false; d21_handler_stays := false;
-  d92_cell_import_not_started := false |}.
+  d92_cell_import_not_started := false; d93_fault_pins_function := false |}.
 Definition cfg_only91 := {| d16_notify_del_return := false; d90_dropped_dm_started := false; d91_pending_subscribes := true; d21_handler_stays := false;
-  d92_cell_import_not_started := false |}.
+  d92_cell_import_not_started := false; d93_fault_pins_function := false |}.
 Definition cfg_only21 := {| d16_notify_del_return := false; d90_dropped_dm_started := false; d91_pending_subscribes := false; d21_handler_stays := true;
-  d92_cell_import_not_started := false |}.
+  d92_cell_import_not_started := false; d93_fault_pins_function := false |}.
 
 (* the three names {a.b, a.b.old, c.d}: entity 1 with two names, entity 2 with one *)
 Definition w_ab := {| i_ent := 1; i_parts := 2; i_tag := 0 |}.
@@ -719,7 +720,7 @@ Proof. vm_compute. reflexivity. Qed.
 
 (* D92: a module (context 11) imported inside a Jupyter cell (context 0): loaded with auto_start off, never started *)
 Definition cfg_only92 := {| d16_notify_del_return := false; d90_dropped_dm_started := false; d91_pending_subscribes := false;
-  d21_handler_stays := false; d92_cell_import_not_started := true |}.
+  d21_handler_stays := false; d92_cell_import_not_started := true; d93_fault_pins_function := false |}.
 Definition ops_D92 (newsys : bool) : list op :=
   [OCtxAuto 0 false; OCtxAuto 11 false; ODefine 11 newsys (wit_spec [w_ab]); OCtxStart 0 []; OCellImportStart 11 []; OResumeAll; OSettle;
    OState 1; OEvent 1].
@@ -727,6 +728,18 @@ Lemma refuted_D92 : forall newsys,
   map r_gen (w_log (run_ops cfg_only92 (ops_D92 newsys) world0)) = [] /\
   map r_gen (w_log (run_ops cfg_off (ops_D92 newsys) world0)) = [1; 1; 1].
 Proof. intros [|]; split; vm_compute; reflexivity. Qed.
+
+(* D93: new subsystem, function defined in a started context, startup dispatch raises: dropping it stops nothing *)
+Definition cfg_only93 := {| d16_notify_del_return := false; d90_dropped_dm_started := false; d91_pending_subscribes := false;
+  d21_handler_stays := false; d92_cell_import_not_started := false; d93_fault_pins_function := true |}.
+Definition pin_spec : fspec :=
+  {| s_states := [[w_ab]]; s_events := []; s_times := [{| ts_periodic := false; ts_startup := true; ts_shutdown := false |}];
+     s_svc := None; s_pos := 0; s_crash := true |}.
+Definition ops_D93 : list op :=
+  [OCtxAuto 0 true; ODefine 0 true pin_spec; OResume 1; OResumeAll; OSettle; OStartupCrash; ODropped 1; OResumeAll; OSettle].
+Lemma refuted_D93 :
+  l_state (w_led (run_ops cfg_only93 ops_D93 world0)) = [(1, 2)] /\ w_led (run_ops cfg_off ops_D93 world0) = ledger0.
+Proof. split; vm_compute; reflexivity. Qed.
 
 (* a function whose every dispatch raises: its watchers die at the first occurrence, it never runs through a trigger,
    and stopping its context still leaves the empty ledger (seeded change C09-9), in both subsystems *)
